@@ -308,6 +308,44 @@ def run(project: Project, rep, tier: str):
     if inserts and not n_ins:
         rep.unmodelled("LX-INSERT", fi, inserts[0], "how the insert position of the residual bar handles equal births was not "
                                                     "recognised")
+    # the scan for the insert position must be able to end at len(list): a bar born after every remaining bar is appended
+    for c in inserts:
+        lst = ast.unparse(c.func.value)
+        idx_names = {c.args[0].id}
+        for _ in range(3):
+            for n in ast.walk(f):
+                if isinstance(n, ast.Assign) and len(n.targets) == 1 and isinstance(n.targets[0], ast.Name) \
+                        and n.targets[0].id in idx_names and isinstance(n.value, ast.Name):
+                    idx_names.add(n.value.id)
+        for wl in [n for n in ast.walk(f) if isinstance(n, ast.While)]:
+            steps = [n for n in ast.walk(wl) if isinstance(n, ast.AugAssign) and isinstance(n.target, ast.Name)
+                     and n.target.id in idx_names]
+            if not steps:
+                continue
+            tests = wl.test.values if isinstance(wl.test, ast.BoolOp) and isinstance(wl.test.op, ast.And) else [wl.test]
+            for t in tests:
+                if isinstance(t, ast.Compare) and len(t.ops) == 1 and isinstance(t.ops[0], ast.Lt) and isinstance(t.left, ast.Name) \
+                        and t.left.id in idx_names:
+                    import re as _re
+                    bound = ast.unparse(t.comparators[0]).replace(" ", "")
+                    m_ = _re.fullmatch(r"len\((\w+)\)(-\d+)?", bound)
+                    if m_ is None and isinstance(t.comparators[0], ast.Name):
+                        # n = len(bars) computed before the loop
+                        from .common import single_assignments
+                        d_ = single_assignments(f).get(t.comparators[0].id)
+                        if d_ is not None:
+                            bound = ast.unparse(d_).replace(" ", "")
+                            m_ = _re.fullmatch(r"len\((\w+)\)(-\d+)?", bound)
+                    if m_ and m_.group(2):
+                        rep.refuted("LX-INSERT", fi, wl,
+                                    f"the scan for the insert position stops at `{bound}`: a residual bar born after every "
+                                    f"remaining bar is inserted before the last one instead of being appended, the worklist is "
+                                    f"no longer sorted by birth and the next depth starts from the wrong bar",
+                                    construct=f"{fi.qualname}: insert scan bound {bound}",
+                                    failing_input="[[0,6],[1,3],[4,8]]: depth 2 becomes the tent of (4,6) only")
+                    elif m_:
+                        rep.discharged("LX-INSERT", fi, wl, f"the scan for the insert position can run to the end of the list "
+                                                            f"(`{bound}`)", nontrivial=False)
     # ---------------- LX-SCALE: comparisons between bar end-points are exact (scale-free)
     from ..core import facets
     n_cmp = 0
